@@ -172,16 +172,27 @@ def map_iter(e, c, a):
     return ListIt(items)
 
 
+class EntryH:
+    """Payload of Entry::Occupied / Entry::Vacant."""
+    def __init__(self, m, key, idx):
+        self.m, self.key, self.idx = m, key, idx
+        self.variant = None
+
+
 @model(r"^" + MAPT + r"::<.*>::entry$")
 def map_entry(e, c, a):
-    return Opaque("entry", (_m(e, a[0]), a[1]))
+    m = _m(e, a[0]); i = m.find(e, a[1])
+    return Agg([EntryH(m, a[1], i)], 0 if i >= 0 else 1, "Entry")      # Occupied = 0, Vacant = 1
 
 
-@model(r"Entry::<.*>::(or_insert|or_insert_with|or_default|and_modify|or_insert_with_key)(::<.*>)?$")
+@model(r"Entry::<.*>::(or_insert|or_insert_with|or_default|and_modify|or_insert_with_key|key)(::<.*>)?$")
 def entry_ops(e, c, a):
     meth = re.search(r">::(\w+)(::<.*>)?$", c).group(1)
-    m, key = a[0].data
+    h = a[0].f[0]
+    m, key = h.m, h.key
     i = m.find(e, key)
+    if meth == "key":
+        return Ref(Cell(key))
     if meth == "and_modify":
         if i >= 0:
             e.call_closure(a[1], [ValRef(m, i)])
@@ -199,6 +210,28 @@ def entry_ops(e, c, a):
         m.insert(e, key, val)
         i = m.find(e, key)
     return ValRef(m, i)
+
+
+@model(r"(Vacant|Occupied)Entry::<.*>::(insert|get|get_mut|into_mut|remove|key|insert_entry)$")
+def entry_handle_ops(e, c, a):
+    meth = c.rsplit("::", 1)[1]
+    h = deref_all(e, a[0])
+    m, key = h.m, h.key
+    i = m.find(e, key)
+    if "VacantEntry" in c:
+        if meth == "key":
+            return Ref(Cell(key))
+        m.insert(e, key, a[1])
+        return ValRef(m, m.find(e, key))
+    if meth in ("get", "get_mut", "into_mut"):
+        return ValRef(m, i)
+    if meth == "key":
+        return Ref(Cell(m.items[i][0]))
+    if meth == "insert":
+        old = m.items[i][1]; m.items[i][1] = a[1]; return old
+    if meth == "remove":
+        return m.items.pop(i)[1]
+    raise Unsupported(c)
 
 
 @model(r"<" + MAPT + r"<.*> as Index<.*>>::index$")
